@@ -7,6 +7,7 @@ an error whose cause is the 'load occurs before store' error of such a variable.
 is executed by the reference evaluator and on the reference AVM; a read of a never-written local there is a violation too.
 Only the stated direction is judged: programs the oracle finds clean but PyTeal rejects are counted (over-rejection), not alarmed.
 """
+import copy
 import itertools
 
 from .. import recipes
@@ -24,7 +25,7 @@ SPEC = {
              "or the program contains both a store and a load of the variable inside different control constructs."),
     "assumptions": ["vlib/defassign.py definite-assignment analysis (source-level control-flow paths)", "vlib/refeval.py for the run-time echo"],
     "min_evaluations": {"quick": 8000, "thorough": 80000},
-    "must_reach": ["must_reject_rejected", "clean_accepted", "in_sub", "in_main", "runtime_echo_runs", "mutated_random"],
+    "must_reach": ["must_reject_rejected", "clean_accepted", "in_sub", "in_main", "runtime_echo_runs", "mutated_random", "diamonds"],
     "shard_timeout": {"quick": 600, "thorough": 7200},
 }
 
@@ -213,6 +214,7 @@ def run_shard(shard):
     rng = rng_for(shard["seed"], "c17", shard["shard"])
     S, N = shard["shard"], shard["nshards"]
     idx = 0
+    enum_rng = rng_for(shard["seed"], "c17-enumeration")  # the same sampled placements in every shard, so idx % N partitions them
     for n in range(1, shard["skel_nodes"] + 1):
         for sk in recipes.skeletons(n):
             nl, nc = count_slots(sk)
@@ -222,10 +224,15 @@ def run_shard(shard):
             condsets = list(itertools.product(["C", "L0"], repeat=nc))
             combos = [(l, c) for l in leafsets for c in condsets if "L0" in l or "L0" in c]
             if len(combos) > 60:
-                combos = rng.sample(combos, 60)
-            # two-variable samples
+                combos = enum_rng.sample(combos, 60)
+            # two variables: exhaustive over {S0,L0,S1,L1,N} for up to 3 leaves (context conditions), sampled beyond
+            two = [l for l in itertools.product(["S0", "L0", "S1", "L1", "N"], repeat=nl)
+                   if any(x in ("S1", "L1") for x in l) and any(x.startswith("L") for x in l)]
+            if nl > 3:
+                two = enum_rng.sample(two, 40)
+            combos += [(l, tuple("C" for _ in range(nc))) for l in two]
             for _ in range(4):
-                combos.append((tuple(rng.choice(["S0", "L0", "S1", "L1", "X", "N"]) for _ in range(nl)), tuple(rng.choice(["C", "L0", "L1"]) for _ in range(nc))))
+                combos.append((tuple(enum_rng.choice(["S0", "L0", "S1", "L1", "X", "N"]) for _ in range(nl)), tuple(enum_rng.choice(["C", "L0", "L1"]) for _ in range(nc))))
             for leaves, conds in combos:
                 idx += 1
                 if idx % N != S:
@@ -240,6 +247,13 @@ def run_shard(shard):
                 recipe = make_recipe(body, nctr, mode, where, two)
                 judge(acc, recipe, version, mode, ss=bool((idx // N) % 2), origin="placement")
                 acc.counters["placements"] += 1
+    # ---- joins whose arms store different variables
+    for j, (ctxkind, body) in enumerate(diamond_family()):
+        if j % N != S:
+            continue
+        where = "sub" if (j // N) % 2 else "main"
+        judge(acc, diamond_recipe(copy.deepcopy(body), where), [4, 6, 9][(j // N) % 3], "app", ss=bool((j // N) % 2), origin="diamond_" + ctxkind, run_echo=False)
+        acc.counters["diamonds"] += 1
     # ---- random recipes with an initialiser deleted / demoted
     for i in range(shard["random"]):
         vgen = rng.choice([2, 4, 5, 6, 8, 9, 10])
@@ -257,6 +271,47 @@ def run_shard(shard):
         judge(acc, r, v, "app", ss=False, origin="exempt")
         acc.counters["exempt_shapes"] += 1
     return acc.result()
+
+
+def diamond_family():
+    """Joins whose arms store different variables (same and different counts), then a load after the join: If/Else, Cond with 2-3
+    arms, ElseIf chains; plain, inside a While body, inside a For body followed by Break, and inside a subroutine."""
+    subsets = [[], ["a"], ["b"], ["a", "b"], ["c"], ["a", "c"]]
+    C = lambda i: ["bin", "==", ["bin", "%", ["btoi", ["txna", "ApplicationArgs", 0]], ["int", 3]], ["int", i]]  # noqa: E731
+
+    def arm(vs):
+        return ["seq", [["store", v, ["int", 1]] for v in vs]] if vs else ["nop"]
+    out = []
+    for narms in (2, 3):
+        for choice in itertools.product(range(len(subsets)), repeat=narms):
+            arms = [subsets[i] for i in choice]
+            if not any(arms):
+                continue
+            for kind in ("ifelse", "cond", "ifchain"):
+                if kind == "ifelse" and narms != 2:
+                    continue
+                if kind == "ifelse":
+                    join = ["if", C(0), arm(arms[0]), arm(arms[1])]
+                elif kind == "cond":
+                    join = ["cond", [[C(i), arm(a)] for i, a in enumerate(arms[:-1])] + [[["int", 1], arm(arms[-1])]]]
+                else:
+                    join = ["ifchain", [[C(i), arm(a)] for i, a in enumerate(arms[:-1])], arm(arms[-1])]
+                for lv in ("a", "b"):
+                    load = ["pop", ["load", lv]]
+                    out.append(("plain", [join, load]))
+                    if narms == 2:
+                        out.append(("while", [["while", C(1), ["seq", [join, load, ["break"]]]]]))
+                        out.append(("for", [["for", ["store", "k", ["int", 0]], ["bin", "<", ["load", "k"], ["int", 2]], ["store", "k", ["bin", "+", ["load", "k"], ["int", 1]]],
+                                            ["seq", [join, ["if", C(2), ["break"], None], load]]]]))
+    return out
+
+
+def diamond_recipe(body, where):
+    vars_ = [{"id": v, "t": "u", "kind": "sv", "slot": None} for v in ("a", "b", "c", "k")]
+    if where == "main":
+        return {"mode": "app", "vars": vars_, "subs": [], "main": body + [["pop", ["int", 5]]], "final": ["int", 1]}
+    sub = {"name": "s", "params": [{"k": "u"}], "ret": "u", "rec": False, "locals": vars_, "body": body, "retexpr": ["param", 0]}
+    return {"mode": "app", "vars": [], "subs": [sub], "main": [["pop", ["call", 0, [["int", 3]]]]], "final": ["int", 1]}
 
 
 def mutate(rng, r):
